@@ -416,6 +416,25 @@ def GenuineRun (r : Rules) (v : Venue) : Nat → List Update → Prop
   | _, [] => True
   | lo, m :: ms => Genuine r v lo m.lastUpdateId m ∧ GenuineRun r v m.lastUpdateId ms
 
+/-- the delivery's first message is the one covering the snapshot point `s` (its range starts at
+cut `c0`): spot `c0 ≤ s < u` (so `U = c0+1 ≤ s+1 ≤ u`); futures `c0 < s ≤ u` where `s` is the id of
+an event of the venue (a REST snapshot reports the id of the last event it contains). -/
+def Covers (r : Rules) (v : Venue) (s c0 : Nat) : List Update → Prop
+  | [] => True
+  | m :: _ =>
+    match r with
+    | .spot => c0 ≤ s ∧ s < m.lastUpdateId
+    | .futures => c0 < s ∧ s ≤ m.lastUpdateId ∧ ∃ c ∈ v, c.id = s
+
+/-- the local state after admitting every message of `ms` in order. -/
+def Local.admitAll (r : Rules) (l : Local) (ms : List Update) : Local :=
+  ms.foldl (fun l m =>
+    ⟨{ updatesProcessed := l.sequencer.updatesProcessed + 1
+       prevLastUpdateId := match r with
+         | .spot => l.sequencer.lastUpdateId
+         | .futures => l.sequencer.prevLastUpdateId
+       lastUpdateId := m.lastUpdateId }, l.book.update m.toEvent⟩) l
+
 /-! ### Executable form of the specification (what the `spec` driver runs)
 
 The spec tracks, per instrument, only ids: the snapshot id, how many messages extended the chain
